@@ -19,3 +19,30 @@ Definition s_Inf : text := Eval compute in tx "Inf".
 Definition s_NegInf : text := Eval compute in tx "-Inf".
 Definition s_inf : text := Eval compute in tx "inf".
 Definition s_nan : text := Eval compute in tx "nan".
+
+(* keys of the Gen tables *)
+Definition k_models_List : text := Eval compute in tx "hy.models.List".
+Definition k_models_Set : text := Eval compute in tx "hy.models.Set".
+Definition k_list : text := Eval compute in tx "list".
+Definition k_set : text := Eval compute in tx "set".
+Definition k_frozenset : text := Eval compute in tx "frozenset".
+Definition k_deque : text := Eval compute in tx "collections.deque".
+Definition k_ChainMap : text := Eval compute in tx "collections.ChainMap".
+Definition k_Counter : text := Eval compute in tx "collections.Counter".
+Definition k_OrderedDict : text := Eval compute in tx "collections.OrderedDict".
+Definition k_defaultdict : text := Eval compute in tx "collections.defaultdict".
+Definition k_Fraction : text := Eval compute in tx "Fraction".
+Definition k_bytearray : text := Eval compute in tx "bytearray".
+Definition k_dict : text := Eval compute in tx "dict".
+Definition k_tuple : text := Eval compute in tx "tuple".
+Definition k_range : text := Eval compute in tx "range".
+Definition k_slice : text := Eval compute in tx "slice".
+
+(* constructor names as they appear in printed values *)
+Definition n_deque : text := Eval compute in tx "deque".
+Definition n_OrderedDict : text := Eval compute in tx "OrderedDict".
+Definition n_Counter : text := Eval compute in tx "Counter".
+Definition n_defaultdict : text := Eval compute in tx "defaultdict".
+Definition n_ChainMap : text := Eval compute in tx "ChainMap".
+Definition tx_class_open : text := Eval compute in tx "<class '".
+Definition tx_class_close : text := Eval compute in tx "'>".
